@@ -185,6 +185,23 @@ fn random_history(rng: &mut Rng, rec: &mut Rec) {
     let mut pos = 0usize;
     let n_ops = rng.usize_in(1, 30);
     for _ in 0..n_ops {
+        if rng.chance(1, 25) {
+            if let BodySender::Flow(f) = &mut s {
+                // direct writes only exist for sized bodies: on a chunked body the report is refused
+                // and must leave no trace (the model simply goes on)
+                rec.call();
+                let amount = rng.usize_in(0, 20);
+                let r = f.consume_direct_write(amount);
+                rec.ev(|| format!("consume_direct_write({}) on a chunked body -> {:?}", amount, r));
+                rec.cov("direct-write-report-on-chunked");
+                if r.is_ok() {
+                    return rec.fail("C03/direct-write-accepted-on-chunked", format!("consume_direct_write({}) succeeded on a chunked body", amount));
+                }
+                if f.can_proceed() != m.terminated {
+                    return rec.fail("C03/direct-write-changed-state", "finished flag changed by a refused direct-write report".into());
+                }
+            }
+        }
         let left = src.len() - pos;
         let mut k = match rng.below(10) {
             0 | 1 => 0,
